@@ -24,6 +24,11 @@ def obligations(tier):
         for o1 in range(OPTS):
             obs.append(Ob(f"C01.drv/{tn}/o1={o1}", "drv", "c_column", {"VF_TYPE": ty, "VF_O1": o1}, t, FN_DRV,
                           f"3-column table; column under test at symbolic position 0..2, type {tn}, first option = catalogue #{o1}, second option any of 12 (symbolic)"))
+    if tier == "thorough":
+        for ty, tn in ((0, "int"), (1, "varchar(n)")):
+            for o1 in range(OPTS):
+                obs.append(Ob(f"C01.drv3/{tn}/o1={o1}", "drv", "c_column3", {"VF_TYPE": ty, "VF_O1": o1}, 1500, FN_DRV,
+                              f"as C01.drv with three options: first = catalogue #{o1}, second and third any of 12 (symbolic), position symbolic"))
     mv = {"quick": (4, 3, 5, 2), "thorough": (6, 5, 8, 3)}[tier]
     obs.append(Ob("C01.val/default_word", "drv", "c_default", {"VF_DKIND": 0, "VF_MAXV": mv[0]}, t, FN_ACT, f"DEFAULT <word>: any lower-case word of 1..{mv[0]} letters except the keyword for"))
     obs.append(Ob("C01.val/default_literal", "drv", "c_default", {"VF_DKIND": 1, "VF_MAXV": mv[1]}, t, FN_ACT, f"DEFAULT '<text>': any text of 1..{mv[1]} characters without a quote"))
